@@ -172,6 +172,20 @@ def run(ck: Check):
             sc["faults"] = {str(ordinal): {"kind": kind, "code": 6}}
             scs.append(sc)
             k += 1
+    # persistent retriable error replies for one partition, longer than the batch ttl
+    # (= request_timeout_ms), followed by later sends to the same partition
+    for code in prodsim.RETRIABLE_CODES:
+        for dur in ((3.0,) if not ck.thorough else (0.5, 2.5, 3.0, 6.0)):
+            for idem in (True, False):
+                scs.append({"id": k, "seed": k, "brokers": 1, "partitions": 2, "ts_type": 0, "idempotent": idem,
+                            "acks": "all", "linger_ms": 0, "max_batch_size": 16384, "compression": None,
+                            "request_timeout_ms": 2000, "retry_backoff_ms": 50,
+                            "tasks": [[{"rid": 0, "p": 0, "sleep": 0.01}, {"rid": 1, "p": 1, "sleep": 0.0},
+                                       {"rid": 2, "p": 0, "sleep": dur + 0.5}, {"rid": 3, "p": 0, "sleep": 0.4}]],
+                            "faults": {}, "migrations": [], "leaderless": [],
+                            "error_windows": [{"from": 0.0, "to": dur, "code": code, "partition": 0}],
+                            "resolve_within": 30})
+                k += 1
     results = prodsim.run_scenarios(scs, timeout=ck.n(600, 2400))
     traces = []
     hist = {"faults": {}, "idempotent": 0, "nonidempotent": 0, "retries": 0, "duplicates": 0, "failed_runs": 0}
